@@ -72,6 +72,7 @@ type FnCtx struct {
 	usesPtrTag bool
 	next0      *Term
 	epochs     int
+	ghostSorts map[string]Sort
 	hvBound    *Term // allocation bound valid for values appearing through the havoc in progress
 }
 
@@ -86,6 +87,12 @@ func (fc *FnCtx) ghostInit(name string, sort Sort) *Term {
 }
 
 func (fc *FnCtx) ghost(st *State, name string, sort Sort) *Term {
+	if fc.ghostSorts == nil {
+		fc.ghostSorts = map[string]Sort{}
+	}
+	if sort != "" {
+		fc.ghostSorts[name] = sort
+	}
 	if g, ok := st.ghosts[name]; ok {
 		return g
 	}
@@ -441,6 +448,12 @@ func (fc *FnCtx) merge(states []*State, conds []*Term) *State {
 			names[k] = true
 		}
 	}
+	if out.hEpoch != states[0].hEpoch {
+		// the states disagree on not-yet-materialised heaps: materialise every known heap
+		for k := range fc.heapSorts {
+			names[k] = true
+		}
+	}
 	var order []string
 	for k := range names {
 		order = append(order, k)
@@ -465,6 +478,11 @@ func (fc *FnCtx) merge(states []*State, conds []*Term) *State {
 			gn[k] = true
 		}
 	}
+	if out.gEpoch != states[0].gEpoch {
+		for k := range fc.ghostSorts {
+			gn[k] = true
+		}
+	}
 	order = order[:0]
 	for k := range gn {
 		order = append(order, k)
@@ -480,11 +498,15 @@ func (fc *FnCtx) merge(states []*State, conds []*Term) *State {
 					ok = false
 					break
 				}
-				var srt Sort
+				srt := fc.ghostSorts[k]
 				for _, s2 := range states {
 					if g2, h2 := s2.ghosts[k]; h2 {
 						srt = g2.Sort
 					}
+				}
+				if srt == "" {
+					ok = false
+					break
 				}
 				g = fc.ghost(states[i], k, srt)
 			}
